@@ -225,6 +225,16 @@ pub fn check_state(
                 return Err(viol(job, slices, "validate_seq", "validate-sequence-length", hist,
                     json!({"seq": w, "seq_bytes": [show(trie.token(t1)), show(trie.token(t2))], "validate": v, "longest_committable": exp}), &format!("{:?}", w)));
             }
+            // try_consume_tokens commits exactly that prefix (no EOS in first position, so no stop in between)
+            if !eos.contains(&t2) {
+                let mut tc = m.clone();
+                let n = tc.try_consume_tokens(&w).unwrap_or(usize::MAX);
+                c("try_consume_sequences");
+                if n != exp {
+                    return Err(viol(job, slices, "try_consume_seq", "validate-sequence-length", hist,
+                        json!({"seq": w, "try_consume_tokens": n, "longest_committable": exp}), &format!("tc{:?}", w)));
+                }
+            }
             if depth <= 1 && exp == 2 && !eos.contains(&t2) {
                 for &t3 in cand.iter().take(8) {
                     let w3 = [t1, t2, t3];
